@@ -52,9 +52,11 @@ Section Check.
   Context {T : Type}.
   Variable ltb : T -> T -> bool.
   Variable parse : str -> option T.
-  Variable show : T -> str.
+  Variable teqb : T -> T -> bool.
 
-  Definition teqb (a b : T) : bool := zlist_eqb (show a) (show b).
+  (* tokens printed by the implementation are read back with the partitioner's parser (printing itself
+     is compared in the CParseTok cases: Z division is too slow to print every ring token here) *)
+  Definition tok_is (a : T) (s : str) : bool := match parse s with Some b => teqb a b | None => false end.
   Definition eeqb (a b : T * Z) : bool := teqb (fst a) (fst b) && (snd a =? snd b).
 
   Fixpoint list_eqb {A B} (eqb : A -> B -> bool) (a : list A) (b : list B) : bool :=
@@ -93,7 +95,7 @@ Section Check.
     all_some (map (fun e => match parse (fst e) with Some t => Some (t, snd e) | None => None end) rv).
 
   Definition entry_eqb (a : T * list Z) (b : str * list Z) : bool :=
-    zlist_eqb (show (fst a)) (fst b) && zlist_eqb (snd a) (snd b).
+    tok_is (fst a) (fst b) && zlist_eqb (snd a) (snd b).
 
   Definition check_ring (hosts : list (Z * hinfo * list str)) (ringv : list (str * Z))
              (class : str) (opts : amap optval) (strat : option strategy) (out : outcome)
@@ -132,7 +134,7 @@ Section Check.
                  end)
                 && (match get_host_for_token ltb R t, owner with
                     | None, None => true
-                    | Some (h, tk), Some (h', tk') => (h =? h') && zlist_eqb (show tk) tk'
+                    | Some (h, tk), Some (h', tk') => (h =? h') && tok_is tk tk'
                     | _, _ => false
                     end)
             end) lookups in
@@ -149,11 +151,11 @@ Definition check (c : case) : bool :=
   | CParseTok PRandom s out =>
       match parse_random_token s with Some v => zlist_eqb (show_z v) out | None => false end
   | CRing PMurmur hosts ringv class opts strat out lookups =>
-      check_ring Z.ltb (fun s => Some (parse_murmur_token s)) show_z hosts ringv class opts strat out lookups
+      check_ring Z.ltb (fun s => Some (parse_murmur_token s)) Z.eqb hosts ringv class opts strat out lookups
   | CRing POrdered hosts ringv class opts strat out lookups =>
-      check_ring str_ltb (fun s => Some s) (fun s => s) hosts ringv class opts strat out lookups
+      check_ring str_ltb (fun s => Some s) zlist_eqb hosts ringv class opts strat out lookups
   | CRing PRandom hosts ringv class opts strat out lookups =>
-      check_ring Z.ltb parse_random_token show_z hosts ringv class opts strat out lookups
+      check_ring Z.ltb parse_random_token Z.eqb hosts ringv class opts strat out lookups
   end.
 
 Definition run (cs : list case) : list N := mismatches check cs.
